@@ -9,6 +9,14 @@
 (B) spec -> code: TLC prints the exact Halton behaviours (rationals; probit(rational) for the
     normal entries) for the requested sizes; native_random_number_generators[name].generator(n, R)
     and Database.generate_draws are compared entry by entry (1e-14; normals through Phi(z) = u).
+(B2) every total length: HaltonSweep.tla walks through every length L = n*R up to a bound for the nine Halton
+    entries (several factorisations per length); TLC prints the exact last members, the exact checksum and sampled
+    positions per answered request; the catalogue generators (every request) and Database.generate_draws (one
+    request per length, all nine entries in one call, in rotating order) are compared: the last element always,
+    the checksum, the samples and -- because a longer sequence only appends -- every member.
+(B3) call histories: DrawCalls.tla enumerates sequences of calls of the Halton entries for one size (and the
+    caller overwriting an array it received); each history is replayed in a fresh process: every returned array
+    has the spec's shape and values whatever was called before, and arrays returned earlier stay unchanged.
 (C) code -> spec: arrays produced by all 21 entries (several sizes, seeds) are recorded as
     observations and judged by DrawTypesTrace.tla with the same acceptance predicates.
 (D) "normal quantile accurate to near machine precision" is numeric accuracy, not decidable in
@@ -22,12 +30,13 @@ from __future__ import annotations
 import copy
 import re
 import sys
+from concurrent.futures import ThreadPoolExecutor
 
 sys.path.insert(0, '/verif')
 
 import numpy as np
 
-from vb import check, drawtypes as dt, rt, tlc
+from vb import check, drawtypes as dt, par, rt, tlc
 from vb.tlc import MachineryError
 
 PID = 'C11'
@@ -66,11 +75,27 @@ def body(chk: check.Check):
         sizes = [(a, b) for a in range(1, 7) for b in range(1, 13)] + [(5, 20), (7, 50), (10, 100), (3, 333), (1, 1000)]
         rand_sizes = [(1, 1), (1, 2), (2, 2), (1, 4), (2, 4), (3, 1), (4, 2), (1, 5), (5, 1), (1, 10), (5, 2), (1, 3), (1, 6), (3, 2)]
         den, maxg = 3, 5
-    res = dt.run_model(sizes, rand_sizes, den, maxg)
+    HNAMES = [f'{k}_HALTON{b}' for b in (2, 3, 5) for k in ('NORMAL', 'UNIFORM', 'UNIFORMSYM')]
+    if quick:
+        maxlen, all_upto = 130, 130
+        call_sizes, maxcalls = [(1, 7), (3, 4), (2, 9)], 2
+    else:
+        maxlen, all_upto = 700, 200
+        call_sizes, maxcalls = [(1, 7), (3, 4), (2, 9), (4, 6)], 3
+    # the TLC runs are independent of each other: side by side (the two model-level controls too)
+    pool = ThreadPoolExecutor(max_workers=5)
+    f_model = pool.submit(dt.run_model, sizes, rand_sizes, den, maxg)
+    f_sweep = pool.submit(dt.run_sweep, maxlen, all_upto)
+    f_calls = pool.submit(dt.run_calls, HNAMES, call_sizes, maxcalls, 1)
+    f_mut = pool.submit(dt.run_mutant_model)
+    f_mut_sweep = pool.submit(dt.run_mutant_sweep)
+    pool.shutdown(wait=False)
+    res = f_model.result()
     chk.add_tlc(f'DrawTypes: {len(sizes)} Halton sizes, nondeterministic entries up to {maxg} generated points on a 1/{den} grid', res)
     cat, behaviours = dt.split_emitted(res)
     chk.rule = ('a behaviour = one call generator(n, R) of one catalogue entry; replayed = Halton behaviours printed by TLC '
-                'with exact values; traces = arrays recorded from the real generators (all 21 entries x sizes x seeds) and '
+                'with exact values (listed sizes: whole arrays; length sweep: one per answered request of every length, plus one '
+                'Database.generate_draws call per length; call histories: one per history, each in a fresh process); traces = arrays recorded from the real generators (all 21 entries x sizes x seeds) and '
                 'batches of quantile samples, judged by DrawTypesTrace; evaluations = compared / judged points')
 
     # catalogue: same names on both sides, and the spec's table is what the descriptions advertise
@@ -87,6 +112,45 @@ def body(chk: check.Check):
             chk.violation('catalogue:advertised', dict(name=nm, description=native[nm].description, spec=e, differs=bad),
                           match=dict(clause='advertised', name=nm))
     names = sorted(set(cat) & set(native))
+    hnames = [nm for nm in HNAMES if nm in native]
+
+    # ------------------------------------------------------------------ (B3) call histories, one fresh process each
+    # (first: no generator has been called in this process yet, every child starts from a library nobody used)
+    res_calls = f_calls.result()
+    chk.add_tlc(f'DrawCalls: histories of {maxcalls} calls of the {len(HNAMES)} Halton entries, sizes {call_sizes}, the caller may '
+                'overwrite one array it received', res_calls)
+    histories = [h for h in dt.split_calls(res_calls) if all(e['name'] in native for e in h['calls'])]
+    if not histories:
+        raise MachineryError('TLC printed no call history')
+    hstats = dict(histories=len(histories), with_scribble=0, calls=0, points=0,
+                  normal_then_uniform_same_base=0, uniform_then_normal_same_base=0)
+    out_h = par.pmap(dt.replay_history, [(h, env) for h in histories], chunk=1, timeout=120)
+    for h, (st, val) in zip(histories, out_h):
+        chk.replayed += 1
+        evs = h['calls']
+        cl = [e for e in evs if e['op'] == 'call']
+        hstats['calls'] += len(cl)
+        hstats['with_scribble'] += any(e['op'] == 'scribble' for e in evs)
+        for a, b in zip(cl, cl[1:]):
+            if cat[a['name']]['base'] == cat[b['name']]['base']:
+                hstats['normal_then_uniform_same_base'] += cat[a['name']]['normal'] and not cat[b['name']]['normal'] and not cat[b['name']]['sym']
+                hstats['uniform_then_normal_same_base'] += cat[b['name']]['normal'] and not cat[a['name']]['normal'] and not cat[a['name']]['sym']
+        label = ' -> '.join(f"{e['name']}({e['n']},{e['R']})" if e['op'] == 'call' else f"overwrite #{e['k']}" for e in evs)
+        if st != 'ok':
+            chk.violation(f'history:{st}', dict(history=label, error=val), match=dict(clause='history', name=cl[0]['name']))
+            continue
+        hstats['points'] += val['points']
+        chk.count(('history', label), val['points'])
+        for key, detail, facts in val['problems']:
+            chk.violation(key, dict(detail, history=label), match=facts)
+    chk.extra['call_histories'] = hstats
+    for h, (st, val) in zip(histories, out_h):
+        cl = [e['name'] for e in h['calls']]
+        if st == 'ok' and cl == ['NORMAL_HALTON3', 'UNIFORM_HALTON3']:
+            chk.sample(dict(history=' then '.join(f"{e['name']}.generator({e['n']}, {e['R']})" for e in h['calls']),
+                            replayed_in='a fresh process', expected_second_array=[[_show(t) for t in row] for row in h['calls'][1]['out']][:1],
+                            violations=sum(1 for k, _, _ in val['problems'] if k != 'quantile')))
+            break
 
     # ------------------------------------------------------------------ (B) spec -> code
     by_key = {}
@@ -215,8 +279,74 @@ def body(chk: check.Check):
         z = float(dt.wichura([good])[0])
         chk.sample(dict(quantile_sample=good, z=z, Phi_z_minus_u=dt.tail_error(good, z)[0], ok=dt.quantile_ok(good, z)), limit=5)
 
+    # ------------------------------------------------------------------ (B2) every total length
+    # (after (C): the sweep model is the longest TLC run and has been running side by side with everything above)
+    res_sweep = f_sweep.result()
+    chk.add_tlc(f'HaltonSweep: every length 1..{maxlen} of the {len(HNAMES)} Halton entries, every factorisation up to length '
+                f'{all_upto}, three beyond', res_sweep)
+    sweep = [r for r in dt.split_sweep(res_sweep) if r['sweep'] in native]
+    tables = dt.sweep_tables(sweep)
+    if sorted(tables) != sorted(hnames) or any(len(tables[nm]['terms']) != maxlen for nm in tables):
+        raise MachineryError(f'sweep tables: {[(nm, len(t["terms"])) for nm, t in tables.items()]}')
+    zrefs = {}
+    for nm in hnames:
+        if tables[nm]['kind'] != 'q':   # the quantile primitive at every member of the sequence, judged once per member
+            zrefs[nm], probs = dt.sweep_points(tables[nm], nm, env)
+            chk.count((nm, 'sweep-members'), maxlen)
+            for key, detail, facts in probs:
+                chk.violation(key, detail, match=facts)
+    by_name = {nm: sorted((r for r in sweep if r['sweep'] == nm), key=lambda r: (r['L'], r['n'])) for nm in hnames}
+    nchunk = 4 if quick else 12
+    items = [(nm, by_name[nm][c::nchunk], tables[nm], env, zrefs.get(nm)) for nm in hnames for c in range(nchunk)]
+    sstats = dict(max_length=maxlen, requests=0, points=0, database_calls=0, database_points=0,
+                  lengths_covered_per_entry={}, shapes_per_length_min=None, shapes_per_length_max=None)
+    for (nm, recs, _, _, _), (st, val) in zip(items, par.pmap(dt.replay_sweep_chunk, items, chunk=1, timeout=900)):
+        if st != 'ok':
+            raise MachineryError(f'sweep replay of {nm} failed: {val}')
+        chk.replayed += val['calls']
+        sstats['requests'] += val['calls']
+        sstats['points'] += val['points']
+        chk.count(None, val['points'])
+        for key, detail, facts in val['problems']:
+            chk.violation(key, detail, match=facts)
+    for nm in hnames:
+        ls = sorted({r['L'] for r in by_name[nm]})
+        for L in ls:
+            chk.distinct.add((nm, 'length', L))
+        sstats['lengths_covered_per_entry'][nm] = f'{ls[0]}..{ls[-1]} ({len(ls)} lengths)' if ls == list(range(ls[0], ls[-1] + 1)) else ls
+    per_len = {}
+    for r in by_name[hnames[0]]:
+        per_len.setdefault(r['L'], []).append((r['n'], r['R']))
+    sstats['shapes_per_length_min'] = min(len(v) for v in per_len.values())
+    sstats['shapes_per_length_max'] = max(len(v) for v in per_len.values())
+    # Database.generate_draws: one request per length, all Halton entries in ONE call, asked in a rotating order
+    rec_of = {(r['sweep'], r['n'], r['R']): r for r in sweep}
+    ditems = []
+    for L in sorted(per_len):
+        n, R = sorted(per_len[L])[L % len(per_len[L])]
+        order = hnames[L % len(hnames):] + hnames[:L % len(hnames)]
+        if (L // len(hnames)) % 2:
+            order = order[::-1]
+        ditems.append((order, {nm: rec_of[(nm, n, R)] for nm in order}, tables, env, zrefs))
+    for (order, recs, _, _, _), (st, val) in zip(ditems, par.pmap(dt.replay_sweep_database, ditems, chunk=20, timeout=900)):
+        if st != 'ok':
+            raise MachineryError(f'database sweep replay failed: {val}')
+        chk.replayed += 1
+        sstats['database_calls'] += 1
+        sstats['database_points'] += val['points']
+        chk.count(('database', recs[order[0]]['n'], recs[order[0]]['R']), val['points'])
+        for key, detail, facts in val['problems']:
+            chk.violation(key, detail, match=facts)
+    chk.extra['length_sweep'] = sstats
+    r22 = next((r for r in by_name.get('UNIFORM_HALTON2', []) if r['L'] == 22), None)
+    if r22 is not None:
+        got22, _ = dt.call('UNIFORM_HALTON2', r22['n'], r22['R'], None)
+        chk.sample(dict(sweep=f"UNIFORM_HALTON2.generator({r22['n']}, {r22['R']}) (length 22: 22 + skip 10 = 2^5)",
+                        expected_last_members=[_show(t) for t in r22['last']], observed_last_members=got22.reshape(-1)[-len(r22['last']):].tolist(),
+                        expected_sum=_show(r22['osum']), observed_sum=float(got22.sum())), limit=6)
+
     # ------------------------------------------------------------------ negative controls
-    controls(chk, cat, behaviours, env)
+    controls(chk, cat, behaviours, env, f_mut, f_mut_sweep, sweep, tables, zrefs, histories)
 
     chk.uncovered += [
         'accuracy of the normal quantile is numeric: decided by the driver (Phi(z) = u with math.erfc, tolerance '
@@ -224,7 +354,10 @@ def body(chk: check.Check):
         'the spec only requires the flags and the coverage of the cells',
         'distributional quality (uniformity / independence of the pseudo-random entries) is not part of the property',
         'odd numbers of draws for antithetic entries are outside the quantifier',
-        'sizes: Halton replay up to 1000 points per array, traces up to 1000 points per array',
+        f'sizes: Halton replay of every total length up to {maxlen} (and the listed larger sizes up to 1000 points), traces up to '
+        '1000 points per array; lengths beyond are not exercised',
+        'call histories: Halton entries only, one size per history; histories mixing sizes or involving the pseudo-random '
+        'entries are not replayed',
     ]
     chk.assumptions += [
         'NORMAL_HALTON*: the descriptions are silent on the skip; the spec takes the quantile of the corresponding UNIFORM_HALTON entry (skip 10)',
@@ -259,9 +392,52 @@ def _judge(events):
     return verdicts
 
 
-def controls(chk, cat, behaviours, env):
+def _patched_child(patch, fn, *args):
+    """Install a wrapper around biogeme.draws.get_halton_draws (in this forked child only) and run fn."""
+    from biogeme import draws
+
+    draws.get_halton_draws = patch(draws.get_halton_draws)
+    return fn(*args)
+
+
+def _last_unwritten(length, value):
+    """A Halton generator whose fill loop leaves the last element of the buffer at `value(last)` for ONE total length."""
+    def patch(orig):
+        def gen(sample_size, number_of_draws, symmetric=False, base=2, skip=0, shuffled=False):
+            a = orig(sample_size, number_of_draws, symmetric=symmetric, base=base, skip=skip, shuffled=shuffled)
+            if sample_size * number_of_draws == length:
+                a[-1, -1] = value(a[-1, -1])
+            return a
+        return gen
+    return patch
+
+
+def _memoised(orig):
+    """A Halton generator that hands the same array object to every caller asking for the same arguments."""
+    import functools
+
+    return functools.lru_cache(maxsize=None)(orig)
+
+
+def _sweep_problems(args):
+    """-> [(L, n, R, sorted problem labels via the catalogue, ... via Database.generate_draws)]"""
+    name, recs, tables, env, zrefs = args
+    out = []
+    for rec in recs:
+        r = dt.replay_sweep_chunk((name, [rec], tables[name], env, zrefs.get(name)))
+        d = dt.replay_sweep_database(([name], {name: rec}, tables, env, zrefs))
+        lab = lambda ps: sorted({f"{k}|{dd.get('what', '')}" for k, dd, _ in ps if k != 'quantile'})
+        out.append((rec['L'], rec['n'], rec['R'], lab(r['problems']), lab(d['problems'])))
+    return out
+
+
+def _history_labels(item):
+    return sorted({k for k, _, _ in dt.replay_history(item)['problems'] if k != 'quantile'})
+
+
+def controls(chk, cat, behaviours, env, f_mut, f_mut_sweep, sweep, tables, zrefs, histories):
     # (1) model level: a generator model whose normal Halton entries all use base 2 must violate DistinctBases
-    r = dt.run_mutant_model()
+    r = f_mut.result()
     chk.control('spec mutant: normal Halton entries generated with base 2 whatever the advertised base',
                 r.violated == 'DistinctBases', f'TLC: {r.violated or r.error}')
     # (2) spec -> code: expected values of base 3 offered for the base-2 generator must be reported
@@ -343,6 +519,79 @@ def controls(chk, cat, behaviours, env):
             chk.control(f'trace control: {label}', got == 'ok', f'verdict {got}')
         else:
             chk.control(f'trace control: {label}', v is not None and clause in v['fails'], f'verdict {got}, fails {v and v["fails"]}')
+    # (6) every total length
+    r = f_mut_sweep.result()
+    chk.control('spec mutant: generated part whose last member stays 0 whenever skip + length = k * base^j (fill loop one short)',
+                r.violated == 'SweepIsGen', f'TLC: {r.violated or r.error}')
+
+    def around(name, L0):
+        return [x for x in sweep if x['sweep'] == name and x['L'] in (L0 - 1, L0, L0 + 1)]
+
+    # the real replay against a generator (patched in a forked child only) that leaves its last element unwritten for ONE length
+    nm, L0 = 'UNIFORM_HALTON3', 17
+    st, val = rt.forked(_patched_child, _last_unwritten(L0, lambda v: 0.0), _sweep_problems, (nm, around(nm, L0), tables, env, zrefs), timeout=120)
+    hit = [x for x in val if x[0] == L0] if st == 'ok' else []
+    miss = [x for x in val if x[0] != L0] if st == 'ok' else []
+    chk.control(f'patched generator: {nm} leaves its last element at 0 for total length {L0} only (forked child): reported for every '
+                f'shape of that length through the catalogue and through Database.generate_draws, lengths {L0 - 1} and {L0 + 1} accepted',
+                st == 'ok' and len(hit) >= 2 and len(miss) >= 2
+                and all('halton:value|last element' in c and 'halton:checksum|exact sum of the array' in c
+                        and 'halton:value|last element' in d for _, _, _, c, d in hit)
+                and all(c == [] and d == [] for _, _, _, c, d in miss),
+                f'{st}: {val if st != "ok" else [(L, n, R, len(c), len(d)) for L, n, R, c, d in val]}')
+    # normal entry: the last uniform number halved where it is tiny -- a deviation that lies INSIDE the envelope of the known
+    # finding about the primitive must still be reported (the value is not what the primitive returns for the expected uniform)
+    nm = 'NORMAL_HALTON5'
+    tb = tables[nm]
+    L0 = min(range(2, len(tb['q'])), key=lambda k: tb['q'][k - 1])      # 1-based position of the smallest member
+    u0 = float(tb['q'][L0 - 1])
+    z0 = float(dt.wichura([u0 / 2])[0])
+    inside = dt.quantile_facts(u0, z0, env, 'control')[0]['within_envelope'] if env else None
+    st, val = rt.forked(_patched_child, _last_unwritten(L0, lambda v: v / 2), _sweep_problems, (nm, around(nm, L0), tables, env, zrefs), timeout=120)
+    hit = [x for x in val if x[0] == L0] if st == 'ok' else []
+    miss = [x for x in val if x[0] != L0] if st == 'ok' else []
+    chk.control(f'patched generator: {nm} receives half of its last uniform number {tb["q"][L0 - 1]} for total length {L0} only',
+                st == 'ok' and len(hit) >= 1 and len(miss) >= 2
+                and all('halton:value|last element' in c and any(x.startswith('halton:value|underlying') for x in c) and d != [] for _, _, _, c, d in hit)
+                and all(c == [] and d == [] for _, _, _, c, d in miss),
+                f'{st}; deviation inside the envelope of the known finding: {inside}; '
+                f'{val if st != "ok" else [(L, n, R, c) for L, n, R, c, d in val if c]}')
+    # expected mutants of the sweep
+    rec = next(x for x in sweep if x['sweep'] == 'UNIFORMSYM_HALTON5' and x['L'] == 40)
+    m1 = copy.deepcopy(rec)
+    m1['osum']['n'] += 1
+    m2 = copy.deepcopy(rec)
+    m2['last'][-1]['n'] += 1
+    l1 = _sweep_problems(('UNIFORMSYM_HALTON5', [m1], tables, env, zrefs))[0]
+    l2 = _sweep_problems(('UNIFORMSYM_HALTON5', [m2], tables, env, zrefs))[0]
+    l0 = _sweep_problems(('UNIFORMSYM_HALTON5', [rec], tables, env, zrefs))[0]
+    chk.control('expected mutant: checksum of UNIFORMSYM_HALTON5 length 40 moved by one unit of its denominator; last member moved by one '
+                'unit; the unmodified record is accepted',
+                l1[3] == ['halton:checksum|exact sum of the array'] and l2[3] == ['halton:value|last element'] and l0[3] == [] and l0[4] == [],
+                f'{l1[3]} / {l2[3]} / {l0[3]}')
+
+    # (7) call histories against a generator that hands out one shared object per argument list (forked children)
+    def hist(*evs):
+        want = [(e[0], e[1]) for e in evs]
+        return next((h for h in histories if [(e['op'], e['name']) for e in h['calls']][:len(want)] == want
+                     and len({(e['n'], e['R']) for e in h['calls']}) == 1), None)
+
+    h1 = hist(('call', 'NORMAL_HALTON2'), ('call', 'UNIFORM_HALTON2'))
+    h2 = hist(('call', 'UNIFORM_HALTON2'), ('call', 'NORMAL_HALTON2'))
+    h3 = hist(('call', 'UNIFORM_HALTON3'), ('scribble', 'UNIFORM_HALTON3'), ('call', 'UNIFORM_HALTON3'))
+    got = []
+    for h in (h1, h2, h3):
+        if h is None:
+            got.append(('missing', None))
+            continue
+        h = dict(h, calls=h['calls'][:3 if h is h3 else 2])
+        got.append(rt.forked(_patched_child, _memoised, _history_labels, (h, env), timeout=120))
+    chk.control('patched generator: memoised Halton generator (one shared array per argument list): NORMAL_HALTON2 then UNIFORM_HALTON2 '
+                'reports the shape of the second array, UNIFORM_HALTON2 then NORMAL_HALTON2 reports the retained first array, '
+                'UNIFORM_HALTON3 / overwrite / UNIFORM_HALTON3 reports the second array',
+                got[0][0] == 'ok' and 'history:shape' in got[0][1] and got[1][0] == 'ok' and 'history:retained' in got[1][1]
+                and got[2][0] == 'ok' and bool(got[2][1]), f'{got}')
+
     # (4) the quantile oracle itself: a deviate off by 1e-12 must be flagged, the reference value must pass
     import statistics
 
